@@ -324,20 +324,29 @@ let parse_pops (s : string) : pop list =
 (* One run of the two-tier model: otter's ticker has phase [phase_ms]; the history starts [unix_ms] after a whole Unix
    second (the instants that travel through redis are cut to whole seconds); [prompt]: otter's cleanup collects an
    expired node of the key before every op / never. *)
-let promote_run ?(hm = true) (mx : z) (ops : pop list) (phase_ms : int) (unix_ms : int) (prompt : bool) : string list =
+let cmd_token (mx : z) (t : z) (k : n) (m : msg) : string =
+  match ct_store_cmd mx t (z_of_int 1000) k (Some m) true with
+  | Some (RSet (_, nx, Some px)) -> Printf.sprintf "{%s:%s}" (if nx then "SETNX" else "SET") (zstr px)
+  | Some (RSet (_, nx, None)) -> Printf.sprintf "{%s:nopx}" (if nx then "SETNX" else "SET")
+  | _ -> "{none}"
+
+let promote_run ?(hm = true) ?(cmd = false) (mx : z) (ops : pop list) (phase_ms : int) (unix_ms : int) (prompt : bool) : string list =
   let t0_ms = 1_000_000 + unix_ms in
   let clock_at (ms : int) : int = 999 + (ms + 1000 - phase_ms) / 1000 in
   let st = ref (ct_init (n_of_int 990)) in
   let do_ev ev = let (st', o) = ctc_step hm mx !st ev in st := st'; o in
+  let skew = ref 0 in       (* round 6: op v = the redis server's clock jumps ahead; later events are seen that much later *)
   List.mapi (fun i op ->
-      let t = z_ns_of_ms (t0_ms + op.pat) in
+      let t = z_ns_of_ms (t0_ms + op.pat + !skew) in
       let k = n_of_int op.pkey in
       ignore (do_ev (CtTick (n_of_int (clock_at op.pat))));
       if prompt then ignore (do_ev (CtCollect k));
       match op.pk with
       | 's' | 'e' ->
-        ignore (do_ev (CtStore (t, z_of_int 1000, k, Some (c08_msg (i + 1) op.prcode false op.pttls), true)));
-        String.make 1 op.pk
+        let m = c08_msg (i + 1) op.prcode false op.pttls in
+        ignore (do_ev (CtStore (t, z_of_int 1000, k, Some m, true)));
+        String.make 1 op.pk ^ (if cmd then cmd_token mx t k m else "")
+      | 'v' -> skew := !skew + op.pkey; "v"
       | 'r' ->
         let stored = z_ns_of_ms (t0_ms + op.pat - op.page) and expire = z_ns_of_ms (t0_ms + op.pat + op.premain) in
         ignore (do_ev (CtForeign (t, stored, expire, k, c08_msg (i + 1) 0 false op.pttls, false))); "r"
@@ -353,10 +362,11 @@ let run_promote parts =
   let mx = init_max_ttl (z_of_int64 (Int64.of_string (fld f "maxttl"))) in
   let ops = parse_pops (fld f "ops") in
   let hm = (try fld f "mem" <> "0" with _ -> true) in
+  let cmd = (try fld f "cmd" = "1" with _ -> false) in
   let runs = ref [] in
   for p = 0 to (if hm then 19 else 0) do        (* without a memory backend otter's ticker plays no part *)
     for u = 0 to 39 do
-      runs := promote_run ~hm mx ops (25 + 50 * p) (12 + 25 * u) false :: promote_run ~hm mx ops (25 + 50 * p) (12 + 25 * u) true :: !runs
+      runs := promote_run ~hm ~cmd mx ops (25 + 50 * p) (12 + 25 * u) false :: promote_run ~hm ~cmd mx ops (25 + 50 * p) (12 + 25 * u) true :: !runs
     done
   done;
   let toks = List.init (List.length ops) (fun i ->
@@ -367,6 +377,7 @@ let run_promote parts =
 let () =
   register "promote" run_promote;
   register "redisneg" run_promote;
+  register "rediscmd" run_promote;
   register "routerhist" run_routerhist;
   register "policy" run_policy;
   register "policyspec" run_policyspec;
